@@ -38,8 +38,11 @@ CLAUSES = [
       "SCoda.C16c.split_independent", "SCoda.C16c.unrepaired_split_not_independent", "SCoda.C16cW.toSeq_copy", "SCoda.C16cW.copy_equal_content",
       "SCoda.C16cW.independent_views_agree"]),
     ("TIE BY TRANSLATION (value level): Sequence.copy / split and Bar / Track / Composition.copy as re-translated from the source on every run; Sequence.copy copies exactly "
-     "the fresh views, Bar.copy is a new bar constructed from a copy of the sequence",
-     ["SCoda.WrapTie.copy_eq", "SCoda.WrapTie.split_eq", "SCoda.ElemTie.barCopy_toBar", "SCoda.ElemTie.barCopy_constructed"]),
+     "the fresh views, Bar.copy is a new bar constructed from a copy of the sequence, Track.copy copies every bar and constructs a new track, Composition.copy copies every track "
+     "(a shallow copy changes the regenerated function and breaks the theorem)",
+     ["SCoda.WrapTie.copy_eq", "SCoda.WrapTie.split_eq", "SCoda.ElemTie.barCopy_toBar", "SCoda.ElemTie.barCopy_constructed", "SCoda.ElemTie.trackCopy_eq",
+      "SCoda.ElemTie.compCopy_eq", "SCoda.ElemTie.trackInit_eq", "SCoda.ElemTie.compInit_eq", "SCoda.ElemTie.compToSequences_eq", "SCoda.ElemTie.trackToSequence_eq",
+      "SCoda.ElemTie.compFromSequences_eq", "SCoda.ElemTie.elem_defaults_pinned"]),
 ]
 RULE = ("originals (<=6 notes, 1-2 channels, signatures) x derivation routes (Sequence.copy, split, sequences_split_bars with "
         "either re-quantisation setting, Bar.copy, Track.copy, Composition.copy) x histories of <=8 public operations on either "
@@ -189,6 +192,15 @@ def o_independent(inp):
     before = [snapshot(o) for o in others]
     for op in inp["ops"]:
         op = _norm_op(tuple(op))
+        if op[0] == "concatOther":
+            # the touched side takes the OTHER side in as an argument of concatenate (it then holds the other side's message objects:
+            # known finding D24d); afterwards operations on it reach the other side
+            for ti in range(len(targets)):
+                try:
+                    targets[ti].concatenate([others[min(ti, len(others) - 1)]])
+                except Exception:
+                    pass
+            continue
         if op[0] in ("concat", "merge", "copy", "split"):
             continue
         for ti in range(len(targets)):
@@ -212,8 +224,17 @@ def o_independent(inp):
     return fails
 
 
+D24D_EXAMPLE = {"init": ["rel", [G.pm(ON, 0, None, note=60, vel=64), G.pm(WAIT, 0, 12), G.pm(OFF, 0, None, note=60)]], "route": "copy",
+               "ops": [["concatOther"], ["setChannel", 5]], "side": "derived", "cuts": [24], "both_fresh": False}
+
+
 def setup(ctx):
     ctx.oracle("independent", o_independent)
+
+    def kf_d24d(f):
+        # the history hands one side to the other as an argument of concatenate
+        return any(op[0] == "concatOther" for op in f["input"]["ops"])
+    ctx.kf_predicates["D24d"] = kf_d24d
 
 
 def heap_correspondence(ctx):
@@ -229,6 +250,7 @@ def heap_correspondence(ctx):
 def generate(ctx):
     rng = ctx.rng
     heap_correspondence(ctx)
+    ctx.check("independent", D24D_EXAMPLE)      # the recorded instance of the known finding
     for i in range(ctx.n(200, 4000)):
         a, notes = G.gen_wf_abs(rng, n_notes=rng.randint(1, 6), channels=rng.choice([(0,), (0,), (0, 1)]), max_tick=150, max_dur=60,
                                 pitches=[60, 62, 64, 66])
